@@ -1,0 +1,245 @@
+//go:build verif
+
+package util
+
+// Contracts for the verif machinery (/verif). Comment-only file.
+//
+// ---- C29: length-prefixed framing ---------------------------------------------------
+//
+// be64(a, o): the big-endian unsigned 64-bit number in a[o..o+8); byt clamps a
+// heap cell to the value range of its type (byte cells hold 0..255).
+//@ spec func byt(x int) int = x % 256
+//@ spec func be64(a intarr, o int) int = byt(a[o])*72057594037927936 + byt(a[o+1])*281474976710656 + byt(a[o+2])*1099511627776 + byt(a[o+3])*4294967296 + byt(a[o+4])*16777216 + byt(a[o+5])*65536 + byt(a[o+6])*256 + byt(a[o+7])
+//
+// roff(a, o, i): offset (relative to o) of the i-th item of a lengthed slice
+// that starts at a[o]: 8 bytes of count, then per item 8 bytes of length and
+// the bytes themselves.
+//@ spec func roff(a intarr, o int, i int) int = ite(i <= 0, 8, roff(a, o, i-1) + 8 + be64(a, o + roff(a, o, i-1)))
+
+// encoding/binary big endian (trusted: standard library)
+//@ func BytesToUint64
+//@   trusted
+//@   pure
+//@   ensures len(b) >= 8 ==> r1 == nil && r0 == be64(elems(b), soff(b))
+//@   ensures len(b) < 8 ==> r1 != nil
+
+//@ func ReadLengthBytes
+//@   prop C29
+//@   ensures len(b) < 8 ==> r1 != nil
+//@   ensures len(b) >= 8 ==> r1 == nil && r0 == be64(elems(b), soff(b))
+
+//@ func ReadLengthedBytes
+//@   prop C29
+//@   ensures [fmt] iff(r2 == nil, len(b) >= 8 && be64(elems(b), soff(b)) <= len(b) - 8)
+//@   ensures [item] r2 == nil ==> sreg(r0) == sreg(b) && soff(r0) == soff(b) + 8 && len(r0) == be64(elems(b), soff(b))
+//@   ensures [left] r2 == nil ==> sreg(r1) == sreg(b) && soff(r1) == soff(b) + 8 + be64(elems(b), soff(b)) && len(r1) == len(b) - 8 - be64(elems(b), soff(b))
+
+//@ func ReadLengthedBytesSlice
+//@   prop C29
+//@   ensures [short] len(b) < 8 ==> r2 != nil
+//@   ensures [nodrop] r2 == nil ==> len(r0) == be64(elems(b), soff(b))
+//@   ensures [items] r2 == nil ==> forall(q, 0 <= q && q < len(r0) ==> sreg(r0[q]) == sreg(b) && soff(r0[q]) == soff(b) + roff(elems(b), soff(b), q) + 8 && len(r0[q]) == be64(elems(b), soff(b) + roff(elems(b), soff(b), q)))
+//@   ensures [left] r2 == nil ==> sreg(r1) == sreg(b) && soff(r1) == soff(b) + roff(elems(b), soff(b), len(r0)) && len(r1) == len(b) - roff(elems(b), soff(b), len(r0))
+//@   loop 0 invariant sreg(left) == sreg(b) && soff(left) == soff(b) + roff(elems(b), soff(b), rangeindex+1) && len(left) == len(b) - roff(elems(b), soff(b), rangeindex+1) && roff(elems(b), soff(b), rangeindex+1) <= len(b)
+//@   loop 0 invariant forall(q, 0 <= q && q < rangeindex+1 ==> sreg(m[q]) == sreg(b) && soff(m[q]) == soff(b) + roff(elems(b), soff(b), q) + 8 && len(m[q]) == be64(elems(b), soff(b) + roff(elems(b), soff(b), q)))
+//@   loop 0 invariant len(m) == be64(elems(b), soff(b))
+//@   loop 0 hint unfold(roff(elems(b), soff(b), rangeindex+2))
+//@   loop 0 inithint unfold(roff(elems(b), soff(b), 0))
+
+
+// ---- streams (A3): one reader and one writer, as ghost byte sequences ---------------
+//
+// rin[0..rend) is the content of the stream being read, rpos the read cursor;
+// wout[0..wlen) is what has been written so far. A Read may deliver any
+// number of the remaining bytes ("arbitrary chunks").
+//@ ghost rin intarr
+//@ ghost rpos int
+//@ ghost rend int
+//@ ghost wout intarr
+//@ ghost wlen int
+
+//@ package io
+//@ global EOF nonnil
+//@ func (Reader).Read
+//@   nobody
+//@   modifies p[*], ghost:rpos
+//@   ensures 0 <= r0 && r0 <= len(p) && rpos == old(rpos) + r0 && rpos <= rend
+//@   ensures forall(q, 0 <= q && q < r0 ==> p[q] == byt(rin[old(rpos) + q]))
+//@   ensures forall(q, r0 <= q && q < len(p) ==> p[q] == old(p[q]))
+//@   ensures errIs(r1, EOF) ==> rpos == rend
+//@ func (Writer).Write
+//@   nobody
+//@   modifies ghost:wout, ghost:wlen
+//@   ensures r1 == nil ==> r0 == len(p)
+//@   ensures r1 == nil ==> wlen == old(wlen) + len(p) && forall(q, 0 <= q && q < len(p) ==> wout[old(wlen) + q] == p[q])
+//@   ensures forall(q, 0 <= q && q < old(wlen) ==> wout[q] == old(wout)[q])
+//@   ensures wlen >= old(wlen)
+//@ func ReadFull
+//@   trusted
+//@   requires r != nil && 0 <= rpos && rpos <= rend
+//@   modifies buf[*], ghost:rpos
+//@   ensures r1 == nil ==> r0 == len(buf) && rpos == old(rpos) + len(buf) && forall(q, 0 <= q && q < len(buf) ==> buf[q] == byt(rin[old(rpos) + q]))
+//@   ensures errIs(r1, EOF) ==> r0 == 0 && rpos == old(rpos) && rpos == rend
+//@   ensures rpos >= old(rpos) && rpos <= rend
+//@ package github.com/spikeekips/mitum/util
+
+// EnsureRead runs the reads in goroutines and hands the chunks over a channel;
+// trusted here, cross-checked by a bounded run of the real function.
+//@ func EnsureRead
+//@   trusted
+//@   modifies b[*], ghost:rpos
+//@   ensures r1 == nil || errIs(r1, io.EOF) ==> r0 == len(b) && rpos == old(rpos) + len(b) && rpos <= rend
+//@   ensures r1 == nil || errIs(r1, io.EOF) ==> forall(q, 0 <= q && q < len(b) ==> b[q] == byt(rin[old(rpos) + q]))
+//@   requires 0 <= rpos && rpos <= rend
+//@   ensures rpos >= old(rpos) && rpos <= rend && r0 <= len(b)
+
+//@ func ReadLength
+//@   prop C29
+//@   requires r != nil && 0 <= rpos && rpos <= rend && rend < 4611686018427387904
+//@   modifies ghost:rpos
+//@   ensures r2 == nil ==> r0 == 8 && rpos == old(rpos) + 8 && r1 == be64(rin, old(rpos))
+//@   ensures r2 != nil ==> !errIs(r2, io.EOF)
+//@   ensures rpos >= old(rpos) && rpos <= rend
+
+//@ func ReadLengthed
+//@   prop C29
+//@   requires r != nil && 0 <= rpos && rpos <= rend && rend < 4611686018427387904
+//@   modifies ghost:rpos
+//@   ensures [empty] (r2 == nil || errIs(r2, io.EOF)) && be64(rin, old(rpos)) < 1 ==> len(r1) == 0 && rpos == old(rpos) + 8
+//@   ensures [item] (r2 == nil || errIs(r2, io.EOF)) && be64(rin, old(rpos)) >= 1 ==> len(r1) == be64(rin, old(rpos)) && rpos == old(rpos) + 8 + len(r1) && forall(q, 0 <= q && q < len(r1) ==> r1[q] == byt(rin[old(rpos) + 8 + q]))
+//@   ensures [count] (r2 == nil || errIs(r2, io.EOF)) ==> r0 == rpos - old(rpos)
+//@   ensures rpos >= old(rpos) && rpos <= rend
+
+//@ func ReadLengthedSlice
+//@   prop C29
+//@   requires r != nil && 0 <= rpos && rpos <= rend && rend < 4611686018427387904
+//@   modifies ghost:rpos
+//@   ensures [nodrop] r2 == nil ==> len(r1) == be64(rin, old(rpos))
+//@   ensures [items] r2 == nil ==> forall(q, 0 <= q && q < len(r1) ==> len(r1[q]) == be64(rin, old(rpos) + roff(rin, old(rpos), q)) && forall(k, 0 <= k && k < len(r1[q]) ==> r1[q][k] == byt(rin[old(rpos) + roff(rin, old(rpos), q) + 8 + k])))
+//@   ensures [pos] r2 == nil ==> rpos == old(rpos) + roff(rin, old(rpos), len(r1)) && r0 == rpos - old(rpos)
+//@   ensures rpos >= old(rpos) && rpos <= rend
+//@   loop 0 invariant rpos == old(rpos) + roff(rin, old(rpos), rangeindex+1) && read == rpos - old(rpos)
+//@   loop 0 invariant len(hs) == be64(rin, old(rpos)) && len(hs) >= 1 && rpos <= rend
+//@   loop 0 invariant forall(q, 0 <= q && q < rangeindex+1 ==> len(hs[q]) == be64(rin, old(rpos) + roff(rin, old(rpos), q)) && forall(k, 0 <= k && k < len(hs[q]) ==> hs[q][k] == byt(rin[old(rpos) + roff(rin, old(rpos), q) + 8 + k])))
+//@   loop 0 hint unfold(roff(rin, old(rpos), rangeindex+2))
+//@   loop 0 inithint unfold(roff(rin, old(rpos), 0))
+//@   posthint unfold(roff(rin, old(rpos), 0))
+
+// ---- writers -----------------------------------------------------------------------
+//
+// woff(a, o, i): offset of the i-th item in the encoding of the [][]byte whose
+// elements are a[o..): 8 bytes of count, then 8 bytes of length and the bytes
+// of each item.
+//@ spec func woff(a bytesarr, o int, i int) int = ite(i <= 0, 8, woff(a, o, i-1) + 8 + len(a[o+i-1]))
+
+// encoding/binary big endian (trusted: standard library)
+//@ func Uint64ToBytes
+//@   trusted
+//@   ensures len(r0) == 8 && be64(elems(r0), soff(r0)) == i
+
+//@ func WriteLength
+//@   prop C29
+//@   requires w != nil && wlen >= 0
+//@   modifies ghost:wout, ghost:wlen
+//@   ensures r0 == nil ==> wlen == old(wlen) + 8 && be64(wout, old(wlen)) == i
+//@   ensures forall(q, 0 <= q && q < old(wlen) ==> wout[q] == old(wout)[q])
+//@   ensures wlen >= old(wlen)
+
+//@ func WriteLengthed
+//@   prop C29
+//@   requires w != nil && wlen >= 0
+//@   modifies ghost:wout, ghost:wlen
+//@   ensures [len] r0 == nil ==> wlen == old(wlen) + 8 + len(b) && be64(wout, old(wlen)) == len(b)
+//@   ensures [bytes] r0 == nil ==> forall(q, 0 <= q && q < len(b) ==> wout[old(wlen) + 8 + q] == b[q])
+//@   ensures [prefix] forall(q, 0 <= q && q < old(wlen) ==> wout[q] == old(wout)[q])
+//@   ensures wlen >= old(wlen)
+
+//@ func WriteLengthedSlice
+//@   prop C29
+//@   requires w != nil && wlen >= 0
+//@   modifies ghost:wout, ghost:wlen
+//@   ensures [count] r0 == nil ==> be64(wout, old(wlen)) == len(m)
+//@   ensures [total] r0 == nil ==> wlen == old(wlen) + woff(elems(m), soff(m), len(m))
+//@   ensures [items] r0 == nil ==> forall(q, 0 <= q && q < len(m) ==> be64(wout, old(wlen) + woff(elems(m), soff(m), q)) == len(m[q]) && forall(k, 0 <= k && k < len(m[q]) ==> wout[old(wlen) + woff(elems(m), soff(m), q) + 8 + k] == m[q][k]))
+//@   ensures [prefix] forall(q, 0 <= q && q < old(wlen) ==> wout[q] == old(wout)[q])
+//@   ensures wlen >= old(wlen)
+//@   loop 0 invariant wlen == old(wlen) + woff(elems(m), soff(m), rangeindex+1) && be64(wout, old(wlen)) == len(m)
+//@   loop 0 invariant forall(q, 0 <= q && q < old(wlen) ==> wout[q] == old(wout)[q])
+//@   loop 0 invariant forall(q, 0 <= q && q < rangeindex+1 ==> woff(elems(m), soff(m), q) >= 8 && old(wlen) + woff(elems(m), soff(m), q) + 8 + len(m[q]) <= wlen)
+//@   loop 0 invariant forall(q, 0 <= q && q < rangeindex+1 ==> be64(wout, old(wlen) + woff(elems(m), soff(m), q)) == len(m[q]) && forall(k, 0 <= k && k < len(m[q]) ==> wout[old(wlen) + woff(elems(m), soff(m), q) + 8 + k] == m[q][k]))
+//@   loop 0 hint unfold(woff(elems(m), soff(m), rangeindex+2))
+//@   loop 0 inithint unfold(woff(elems(m), soff(m), 0))
+//@   posthint unfold(woff(elems(m), soff(m), 0))
+
+// ---- frames ------------------------------------------------------------------------
+//@ func NewBytesFrameReader
+//@   prop C29
+//@   requires r != nil && 0 <= rpos && rpos <= rend && rend < 4611686018427387904
+//@   modifies ghost:rpos
+//@   ensures [version] r1 == nil ==> r0 != nil && r0.r == r && !r0.headerRead && ((rpos == old(rpos) + 2 && r0.version[0] == byt(rin[old(rpos)]) && r0.version[1] == byt(rin[old(rpos) + 1])) || (rpos == old(rpos) && rpos == rend))
+//@   ensures rpos >= old(rpos) && rpos <= rend
+
+//@ func (*BytesFrameReader).Header
+//@   prop C29
+//@   requires f != nil && f.r != nil && 0 <= rpos && rpos <= rend && rend < 4611686018427387904
+//@   modifies f.headerRead, ghost:rpos
+//@   ensures [once] old(f.headerRead) ==> r1 != nil && rpos == old(rpos)
+//@   ensures [nodrop] r1 == nil ==> len(r0) == be64(rin, old(rpos))
+//@   ensures [items] r1 == nil ==> forall(q, 0 <= q && q < len(r0) ==> len(r0[q]) == be64(rin, old(rpos) + roff(rin, old(rpos), q)) && forall(k, 0 <= k && k < len(r0[q]) ==> r0[q][k] == byt(rin[old(rpos) + roff(rin, old(rpos), q) + 8 + k])))
+//@   ensures [pos] r1 == nil ==> rpos == old(rpos) + roff(rin, old(rpos), len(r0))
+//@   ensures f.headerRead && rpos >= old(rpos) && rpos <= rend
+
+//@ func (*BytesFrameReader).exhaustHeader
+//@   prop C29
+//@   requires f != nil && f.r != nil && 0 <= rpos && rpos <= rend && rend < 4611686018427387904
+//@   modifies f.headerRead, ghost:rpos
+//@   ensures [skip] old(f.headerRead) ==> r0 == nil && rpos == old(rpos)
+//@   ensures [pos] !old(f.headerRead) && r0 == nil ==> rpos == old(rpos) + roff(rin, old(rpos), be64(rin, old(rpos)))
+//@   ensures f.headerRead && rpos >= old(rpos) && rpos <= rend
+
+//@ func (*BytesFrameReader).Lengthed
+//@   prop C29
+//@   requires f != nil && f.r != nil && f.headerRead && 0 <= rpos && rpos <= rend && rend < 4611686018427387904
+//@   modifies ghost:rpos, *
+//@   fnparam read requires len(a0) == 0 || (len(a0) == be64(rin, rpos - 8 - len(a0)) && forall(q, 0 <= q && q < len(a0) ==> a0[q] == byt(rin[rpos - len(a0) + q])))
+
+// NewBytesFrameWriter slices a package-level array (outside the verified subset): not under contract.
+
+//@ func (*BytesFrameWriter).Lengthed
+//@   prop C29
+//@   requires f != nil && f.w != nil && wlen >= 0
+//@   modifies f.headerWritten, ghost:wout, ghost:wlen
+//@   ensures [len] r0 == nil ==> wlen == old(wlen) + 8 + len(b) && be64(wout, old(wlen)) == len(b)
+//@   ensures [bytes] r0 == nil ==> forall(q, 0 <= q && q < len(b) ==> wout[old(wlen) + 8 + q] == b[q])
+//@   ensures [prefix] forall(q, 0 <= q && q < old(wlen) ==> wout[q] == old(wout)[q])
+//@   ensures f.headerWritten
+
+//@ func (*BytesFrameWriter).Header
+//@   prop C29
+//@   requires f != nil && f.w != nil && wlen >= 0
+//@   modifies f.headerWritten, ghost:wout, ghost:wlen
+//@   ensures [once] old(f.headerWritten) ==> r0 != nil && wlen == old(wlen)
+//@   ensures [count] r0 == nil ==> be64(wout, old(wlen)) == len(bs)
+//@   ensures [total] r0 == nil ==> wlen == old(wlen) + woff(elems(bs), soff(bs), len(bs))
+//@   ensures [items] r0 == nil ==> forall(q, 0 <= q && q < len(bs) ==> be64(wout, old(wlen) + woff(elems(bs), soff(bs), q)) == len(bs[q]) && forall(k, 0 <= k && k < len(bs[q]) ==> wout[old(wlen) + woff(elems(bs), soff(bs), q) + 8 + k] == bs[q][k]))
+//@   ensures [prefix] forall(q, 0 <= q && q < old(wlen) ==> wout[q] == old(wout)[q])
+//@   ensures f.headerWritten
+//@   loop 0 invariant wlen == old(wlen) + woff(elems(bs), soff(bs), rangeindex+1) && be64(wout, old(wlen)) == len(bs)
+//@   loop 0 invariant forall(q, 0 <= q && q < old(wlen) ==> wout[q] == old(wout)[q])
+//@   loop 0 invariant forall(q, 0 <= q && q < rangeindex+1 ==> woff(elems(bs), soff(bs), q) >= 8 && old(wlen) + woff(elems(bs), soff(bs), q) + 8 + len(bs[q]) <= wlen)
+//@   loop 0 invariant forall(q, 0 <= q && q < rangeindex+1 ==> be64(wout, old(wlen) + woff(elems(bs), soff(bs), q)) == len(bs[q]) && forall(k, 0 <= k && k < len(bs[q]) ==> wout[old(wlen) + woff(elems(bs), soff(bs), q) + 8 + k] == bs[q][k]))
+//@   loop 0 hint unfold(woff(elems(bs), soff(bs), rangeindex+2))
+//@   loop 0 inithint unfold(woff(elems(bs), soff(bs), 0))
+//@   posthint unfold(woff(elems(bs), soff(bs), 0))
+
+// ---- round trip (L2) -----------------------------------------------------------------
+//
+// If a[W..) holds what WriteLengthedSlice wrote for the items ms[mo..mo+n)
+// (its postconditions [count] and [items]: every length field holds the
+// item's length), then the offsets the readers compute (roff, from the
+// bytes) are the offsets the writer used (woff, from the items); by the
+// readers' postconditions [items] the bytes read are then the bytes written.
+// Base and step are proved; the induction over q itself is not mechanised.
+//@ spec func enc(a intarr, W int, ms bytesarr, mo int, n int) bool = forall(j, 0 <= j && j < n ==> be64(a, W + woff(ms, mo, j)) == len(ms[mo+j]))
+//@ lemma rt_offsets_base (C29): forall(intarr(a), W, bytesarr(ms), mo, unfold(roff(a, W, 0)) && unfold(woff(ms, mo, 0)) ==> roff(a, W, 0) == woff(ms, mo, 0))
+//@ lemma rt_offsets_step (C29): forall(intarr(a), W, bytesarr(ms), mo, n, q, enc(a, W, ms, mo, n) && 0 <= q && q < n && unfold(roff(a, W, q+1)) && unfold(woff(ms, mo, q+1)) && roff(a, W, q) == woff(ms, mo, q) ==> roff(a, W, q+1) == woff(ms, mo, q+1))
